@@ -567,10 +567,13 @@ func mainProp(prop string, cfg propCfg, tier string, seed uint64, replay, scratc
 		}
 	}
 
+	toolTrouble := false
 	if a.toolErrs > 0 || a.recheckBad > 0 {
+		// (not a verdict by itself: a violation of another run that replays exactly in a fresh
+		// process is still reported below; without one the check ends with exit 2)
 		fmt.Fprintf(os.Stderr, "vcheck: %d runs with tooling errors, %d determinism re-executions diverged:\n  %s\n", a.toolErrs, a.recheckBad,
 			strings.Join(a.toolErrSamples, "\n  "))
-		return 2
+		toolTrouble = true
 	}
 	if a.runs == 0 {
 		fatal2("no runs executed")
@@ -659,7 +662,9 @@ func mainProp(prop string, cfg propCfg, tier string, seed uint64, replay, scratc
 		status, raw := verifyReplay(b, path, false)
 		if status != "reproduced" {
 			fmt.Fprintf(os.Stderr, "vcheck: replay of %s diverged in a fresh process (%s) - tooling trouble, not reported as violation\n%s\n", s, status, tail(raw, 20))
-			return 2
+			toolTrouble = true
+			os.Remove(path)
+			continue
 		}
 		fmt.Printf("VIOLATION property=%s replay=%s\n", prop, path)
 		fmt.Printf("  signature: %s\n  %s\n", s, firstLine(rf.Detail))
@@ -705,6 +710,10 @@ func mainProp(prop string, cfg propCfg, tier string, seed uint64, replay, scratc
 	wall := time.Since(start).Seconds()
 	fmt.Printf("%s %s: %d runs (%d non-trivial, %d distinct), %d steps, %d preemptions, %.1fs simulated, %d new violation signature(s), %d known finding(s), wall %.1fs\n",
 		prop, tier, a.runs, a.nontrivial, len(a.hashes), a.steps, a.preempts, float64(a.simUs)/1e6, newViol, len(knownHit), wall)
+	if exit == 0 && toolTrouble {
+		fmt.Fprintf(os.Stderr, "vcheck: tooling trouble and no verified violation: exit 2\n")
+		return 2
+	}
 	return exit
 }
 
